@@ -40,6 +40,10 @@ func init() {
 		Rule: "all 37 registered function names in random letter case (plus unknown names) x argument lists of length 0..8 drawn from the ~60-value boundary pool (biased to the arity and argument kinds the function expects, plus unbiased lists) x both managers, called directly through FindByName/Calculate; each call is also repeated through an expression Name(v0, v1, ...) with the arguments bound to variables; non-trivial = a call with the right number of arguments; distinct by input hash"})
 }
 
+// sameName: the same name ignoring letter case = equal upper-case forms (the library's rule everywhere; so the dotless i
+// and the long s spell I and S)
+func sameName(a, b string) bool { return strings.ToUpper(a) == strings.ToUpper(b) }
+
 func randCase(ctx *Ctx, s string) string {
 	var sb strings.Builder
 	for _, c := range s {
@@ -223,6 +227,38 @@ func genC08(ctx *Ctx) {
 			}
 		}
 	}
+	// every name x every argument count 0..8 (numbers), both managers: the wrong counts are errors, never values
+	for _, name := range c08Names {
+		for n := 0; n <= 8; n++ {
+			args := make([]*variants.Variant, n)
+			for i := range args {
+				args[i] = small[(i+n)%len(small)]
+			}
+			for _, safe := range []bool{false, true} {
+				ctx.Count("arity-sweep")
+				ctx.Input(c08Input(safe, name, args), true)
+			}
+		}
+	}
+	// spellings with letters whose upper case is an ASCII letter (dotless i, long s): still the same function
+	for _, name := range c08Names {
+		for _, sp := range []string{strings.NewReplacer("i", "ı", "I", "ı").Replace(name), strings.NewReplacer("s", "ſ", "S", "ſ").Replace(name)} {
+			if sp == name {
+				continue
+			}
+			up := strings.ToUpper(name)
+			n := 1
+			if ar, ok := arity[up]; ok {
+				n = ar[0]
+			}
+			args := make([]*variants.Variant, n)
+			for i := range args {
+				args[i] = small[i%len(small)]
+			}
+			ctx.Count("special-spelling")
+			ctx.Input(c08Input(false, sp, args), true)
+		}
+	}
 	genC08Scale(ctx, nums)
 }
 
@@ -265,12 +301,12 @@ func runC08(in sx.SX) (sx.SX, string) {
 	coll := functions.NewDefaultFunctionCollection()
 	// removing other functions (registered before and after it) does not disturb the lookup of this one
 	for _, gone := range []string{"Rnd", "TimeSpan", "Contains"} {
-		if !strings.EqualFold(gone, name) {
+		if !sameName(gone, name) {
 			coll.RemoveByName(gone)
 		}
 	}
 	f := coll.FindByName(name)
-	if f != nil && !strings.EqualFold(f.Name(), name) {
+	if f != nil && !sameName(f.Name(), name) {
 		return sx.L(sx.I(-998)), "FindByName(" + name + ") after removing other functions returned the function " + f.Name()
 	}
 	// a large collection (the defaults and 20 functions of the caller): lookup, removal of other functions by name, lookup again
@@ -283,7 +319,7 @@ func runC08(in sx.SX) (sx.SX, string) {
 	}
 	for step := 0; step < 3; step++ {
 		g := big.FindByName(name)
-		if (g == nil) != (f == nil) || (g != nil && !strings.EqualFold(g.Name(), name)) {
+		if (g == nil) != (f == nil) || (g != nil && !sameName(g.Name(), name)) {
 			got := "nothing"
 			if g != nil {
 				got = "the function " + g.Name()
@@ -294,7 +330,7 @@ func runC08(in sx.SX) (sx.SX, string) {
 			return sx.L(sx.I(-998)), fmt.Sprintf("in a collection of %d functions, after %d removals by name, the caller's function zz_u17 is not found under its name", big.Length(), step)
 		}
 		for _, gone := range [][]string{{"zz_u3", "Ticks"}, {"zz_u0", "Array"}, {}}[step] {
-			if !strings.EqualFold(gone, name) {
+			if !sameName(gone, name) {
 				big.RemoveByName(gone)
 			}
 		}
@@ -304,7 +340,7 @@ func runC08(in sx.SX) (sx.SX, string) {
 	}
 	known := false
 	for _, n := range c08Names {
-		if strings.EqualFold(n, name) {
+		if sameName(n, name) {
 			known = true
 		}
 	}
@@ -363,6 +399,23 @@ func runC08(in sx.SX) (sx.SX, string) {
 			}
 		}
 	}
+	// a wrong number of arguments is an error (functions with a fixed set of argument counts)
+	if fail == "" && err == nil {
+		fixed := map[string][]int{"TICKS": {0}, "NOW": {0}, "E": {0}, "PI": {0}, "RND": {0}, "RANDOM": {0}, "NULL": {0}, "ABS": {1}, "DAYOFWEEK": {1}, "EMPTY": {1},
+			"TRUNC": {1}, "TRUNCATE": {1}, "CONTAINS": {2}, "IF": {3}, "TIMESPAN": {1, 3, 4, 5}}
+		for k := range mathFns {
+			fixed[k] = []int{1}
+		}
+		if allowed, ok := fixed[up]; ok {
+			good := false
+			for _, n := range allowed {
+				good = good || n == len(args)
+			}
+			if !good {
+				fail = fmt.Sprintf("%s called with %d arguments returned %s instead of an error (it takes %v)", name, len(args), sx.Text(obs), allowed)
+			}
+		}
+	}
 	// Sum is the left fold of + over its arguments (the first argument decides the type of every step)
 	if fail == "" && up == "SUM" && len(args) >= 2 {
 		acc, ferr := args[0], error(nil)
@@ -380,7 +433,7 @@ func runC08(in sx.SX) (sx.SX, string) {
 		fail = c08Denotes(up, args, res, m)
 	}
 	// the same call through an expression Name(v0, v1, ...)
-	if fail == "" && up != "TICKS" && up != "NOW" && up != "RND" && up != "RANDOM" && up != "NULL" { // NULL is a keyword of the expression language
+	if fail == "" && up != "TICKS" && up != "NOW" && up != "RND" && up != "RANDOM" && up != "NULL" && []rune(name)[0] < 0x100 { // NULL is a keyword of the expression language; an identifier starts with a Latin-1 letter
 		calc := calculator.NewExpressionCalculator()
 		calc.SetVariantOperations(m)
 		var ps []string
